@@ -3,7 +3,7 @@
 import json,glob,os
 R='/verif/seeded'
 notes={
-'C01-m1':"missed by the first quick runs; block-local variables are now observed at block end (wgen) and the quick budget was raised; the thorough tier caught it from the start (8 min)",
+'C01-m1':"missed by the first quick runs (the thorough tier caught it in 8 min); wgen now observes block-local variables at block end and emits a loop-local accumulator idiom; caught at seed 1 since",
 'C02-m1':"missed at first: no generated helper was reachable only from a continuing block; wgen now emits step helpers called only from continuing / for-update that also own a private variable",
 'C02-m2':"missed at first: non-square transpose was switched off by open finding C08-10; that defect was repaired in /repo (fix 925d909) and the construct is generated again",
 'C03-m2':"MISSED: the executors model bool/i32/u32/f32 only; 64-bit integer vectors are outside the generator's and interpreters' domain (see DESIGN 8.6)",
@@ -16,7 +16,7 @@ notes={
 'C12-m1':"caught on 1 of 2 seeds at first, reliably after the generator extensions",
 'C12-m2':"missed at first: no source sampled one texture through two samplers; C12 now draws full-profile modules (second sampler added to genfull) and repeats each compilation up to 5 times",
 'C13-m1':"missed at first; caught since wgen emits helpers called only from loop update clauses",
-'C13-m2':"missed at first (2 seeds), caught after the generator extensions (locals stored in loops nested in if / switch arms are observed after the construct)",
+'C13-m2':"MISSED: the shape (local updated in a single-block loop nested in an if, read afterwards) is exactly what open finding C13-3 mis-promotes, so such modules are skipped (skip:known:c13-mem2reg-single-block-in-loop); an earlier 'caught' was a harness false alarm (DESIGN 8.4) that has been corrected",
 'C14-m1':"missed at first: the module-unchanged oracle is off while C14-1 is open; caught now through its effect on a later resolution (override-derived private initialisers and helper locals are generated and executed)",
 'C15-m2':"MISSED: needs Index policy != Buffer policy; read-zero-skip-write is off while C04-3 is open, which leaves restrict/restrict",
 'C17-m1':"missed at first; IO attributes are now printed in both orders",
